@@ -111,9 +111,10 @@ package ring
 //@   ensures[count] 0 <= result0 && b.used == old(b.used) - result0
 //@   ensures[shifted] forall i in 0..b.used :: at(b, i) == old(at(b, i + result0))
 //@   ensures[done] result1 == nil ==> b.used == 0
-//@   modifies b.start, b.used
-//@   loop 1 modifies b.start, b.used
+//@   ensures[account] result0 == accepted[writer] - old(accepted[writer])
+//@   modifies b.start, b.used, wcalls[writer], accepted[writer]
+//@   loop 1 modifies b.start, b.used, wcalls[writer], accepted[writer]
 //@   loop 1 invariant wf(b) && shape(b)
-//@   loop 1 invariant 0 <= result && b.used == old(b.used) - result
+//@   loop 1 invariant 0 <= result && b.used == old(b.used) - result && result == accepted[writer] - old(accepted[writer])
 //@   loop 1 invariant b.used > 0 ==> b.start == wrap(b, old(b.start) + result)
 //@   loop 1 invariant[shifted] forall i in 0..b.used :: at(b, i) == old(at(b, i + result))
